@@ -24,7 +24,8 @@ pub enum POp {
     /// ExecuteMsg::WithdrawLiquidity {} with `a` of DENOMS[denom] attached (token-factory LP entry point)
     WithdrawDirect { who: usize, denom: usize, a: u128 },
     BadFundsSwap { who: usize, dir: bool, declared: u128, sent: u128 },
-    BadFundsProvide { who: usize, d0: u128, d1: u128 },
+    /// variant 0: funds one unit short; 1..4: malformed asset list (see PairWorld::provide_malformed). One model operation: always rejected.
+    BadFundsProvide { who: usize, d0: u128, d1: u128, variant: u8 },
     ForeignHookSwap { who: usize, x: u128 },
     TokenViaNativeSwap { who: usize, dir: bool, x: u128 },
 }
@@ -47,7 +48,7 @@ impl POp {
             POp::TransferLp { from, to, a } => format!("TransferLP {}%nat {}%nat {}", from, to, a),
             POp::WithdrawDirect { who, denom, a } => format!("WithdrawDirect {}%nat {}%nat {}", who, denom, a),
             POp::BadFundsSwap { who, dir, declared, sent } => format!("BadFundsSwap {}%nat {} {} {}", who, coqbool(*dir), declared, sent),
-            POp::BadFundsProvide { who, d0, d1 } => format!("BadFundsProvide {}%nat {} {}", who, d0, d1),
+            POp::BadFundsProvide { who, d0, d1, .. } => format!("BadFundsProvide {}%nat {} {}", who, d0, d1),
             POp::ForeignHookSwap { who, x } => format!("ForeignHookSwap {}%nat {}", who, x),
             POp::TokenViaNativeSwap { who, dir, x } => format!("TokenViaNativeSwap {}%nat {} {}", who, coqbool(*dir), x),
         }
@@ -150,9 +151,11 @@ pub fn exec(w: &mut PairWorld, op: &POp) -> Outcome<AppResponse> {
             cw_multi_test::Executor::execute_contract(&mut w.app, cosmwasm_std::Addr::unchecked(ACCTS[*who]), pair,
                 &pair::ExecuteMsg::Swap { offer_asset: white_whale_std::pool_network::asset::Asset { info: w.assets[i].clone(), amount: Uint128::new(*declared) }, belief_price: None, max_spread: Some(dec(DEC / 2)), to: None }, &funds)
         }
-        POp::BadFundsProvide { who, d0, d1 } => {
-            // attach one unit less than declared for every native asset
-            w.provide_ext(ACCTS[*who], *d0, *d1, None, None, false, Some((d0.saturating_sub(1), d1.saturating_sub(1))))
+        POp::BadFundsProvide { who, d0, d1, variant } => {
+            if *variant == 0 {
+                // attach one unit less than declared for every native asset
+                w.provide_ext(ACCTS[*who], *d0, *d1, None, None, false, Some((d0.saturating_sub(1), d1.saturating_sub(1))))
+            } else { w.provide_malformed(ACCTS[*who], *variant, *d0, *d1) }
         }
         POp::ForeignHookSwap { who, x } => {
             let f = w.foreign.clone(); let pair = w.pair.to_string();
@@ -174,6 +177,8 @@ pub fn exec(w: &mut PairWorld, op: &POp) -> Outcome<AppResponse> {
     match r {
         Ok(Ok(resp)) => Outcome::Ok(resp),
         Ok(Err(e)) => Outcome::Err(classify_text(&format!("{:#}", e))),
+        // a malformed asset list aborts the contract (`expect`) today; how it is refused is not the property's concern
+        Err(_) if matches!(op, POp::BadFundsProvide { variant, .. } if *variant > 0) => Outcome::Err(E_OTHER),
         Err(_) => Outcome::Panic("panic".into()),
     }
 }
@@ -422,13 +427,16 @@ pub fn gen_case(rng: &mut Rng, len: usize, bias: &Bias) -> PairCase {
             let fv = !rng.chance(1, 6); let new_fees = if rng.chance(2, 3) { Some(fee_triple(rng, fv)) } else { None };
             let toggles = if bias.toggles || rng.chance(1, 4) { Some((rng.chance(3, 4), rng.chance(3, 4), rng.chance(3, 4))) } else { None };
             POp::UpdateConfig { who: sender, new_owner, new_fees, toggles }
-        } else if choice < 97 { POp::Donate { i: rng.chance(1, 2), z: magnitude(rng, 90) }
-        } else if choice < 98 && rng.chance(1, 2) {
+        } else if choice < 95 { POp::Donate { i: rng.chance(1, 2), z: magnitude(rng, 90) }
+        } else if choice < 98 && rng.chance(3, 4) {
             // malformed entries (must be rejected and change nothing)
             let dirn = rng.chance(1, 2);
-            match rng.below(4) {
+            match rng.below(6) {
+                4 | 5 => { let small = rng.chance(1, 2);
+                           let d = if small { 1000 + rng.below128(100_000) } else { magnitude(rng, 60).max(1) };
+                           POp::BadFundsProvide { who, d0: d, d1: if rng.chance(1, 2) { d } else { 1 + rng.below128(d.max(2)) }, variant: 1 + rng.below(4) as u8 } }
                 0 if !kinds[dirn as usize] => { let d = 1000 + rng.below128(1_000_000); POp::BadFundsSwap { who, dir: dirn, declared: d, sent: if rng.chance(1, 2) { d - 1 } else { d + 1 } } }
-                1 if !kinds[0] || !kinds[1] => POp::BadFundsProvide { who, d0: 1000 + rng.below128(100_000), d1: 1000 + rng.below128(100_000) },
+                1 if !kinds[0] || !kinds[1] => POp::BadFundsProvide { who, d0: 1000 + rng.below128(100_000), d1: 1000 + rng.below128(100_000), variant: 0 },
                 2 => POp::ForeignHookSwap { who, x: rng.below128(1_000_000) },
                 _ => POp::TokenViaNativeSwap { who, dir: dirn, x: rng.below128(1_000_000) },
             }
@@ -540,7 +548,7 @@ impl PairCase {
             POp::TransferLp { from, to, a } => json!(["transfer_lp", from, to, a.to_string()]),
             POp::WithdrawDirect { who, denom, a } => json!(["withdraw_direct", who, denom, a.to_string()]),
             POp::BadFundsSwap { who, dir, declared, sent } => json!(["bad_funds_swap", who, dir, declared.to_string(), sent.to_string()]),
-            POp::BadFundsProvide { who, d0, d1 } => json!(["bad_funds_provide", who, d0.to_string(), d1.to_string()]),
+            POp::BadFundsProvide { who, d0, d1, variant } => json!(["bad_funds_provide", who, d0.to_string(), d1.to_string(), variant]),
             POp::ForeignHookSwap { who, x } => json!(["foreign_hook_swap", who, x.to_string()]),
             POp::TokenViaNativeSwap { who, dir, x } => json!(["token_via_native_swap", who, dir, x.to_string()]),
         }).collect();
@@ -564,7 +572,7 @@ impl PairCase {
                 "transfer_lp" => POp::TransferLp { from: u(1)?, to: u(2)?, a: ps(&o[3])? },
                 "withdraw_direct" => POp::WithdrawDirect { who: u(1)?, denom: u(2)?, a: ps(&o[3])? },
                 "bad_funds_swap" => POp::BadFundsSwap { who: u(1)?, dir: o[2].as_bool()?, declared: ps(&o[3])?, sent: ps(&o[4])? },
-                "bad_funds_provide" => POp::BadFundsProvide { who: u(1)?, d0: ps(&o[2])?, d1: ps(&o[3])? },
+                "bad_funds_provide" => POp::BadFundsProvide { who: u(1)?, d0: ps(&o[2])?, d1: ps(&o[3])?, variant: o.get(4).and_then(|v| v.as_u64()).unwrap_or(0) as u8 },
                 "foreign_hook_swap" => POp::ForeignHookSwap { who: u(1)?, x: ps(&o[2])? },
                 "token_via_native_swap" => POp::TokenViaNativeSwap { who: u(1)?, dir: o[2].as_bool()?, x: ps(&o[3])? },
                 _ => return None,
